@@ -24,6 +24,8 @@ S_<TN_, TA_, TH_>::wrapSelect(Control& control) noexcept {
 	HFSM2_LOG_STATE_METHOD(&Head::select,
 						   Method::SELECT);
 
+	ScopedOrigin origin{control, STATE_ID};
+
 	return Head::select(static_cast<const Control&>(control));
 }
 
@@ -38,6 +40,8 @@ S_<TN_, TA_, TH_>::wrapRank(Control& control) noexcept {
 	HFSM2_LOG_STATE_METHOD(&Head::rank,
 						   Method::RANK);
 
+	ScopedOrigin origin{control, STATE_ID};
+
 	return Head::rank(static_cast<const Control&>(control));
 }
 
@@ -49,6 +53,8 @@ typename S_<TN_, TA_, TH_>::Utility
 S_<TN_, TA_, TH_>::wrapUtility(Control& control) noexcept {
 	HFSM2_LOG_STATE_METHOD(&Head::utility,
 						   Method::UTILITY);
+
+	ScopedOrigin origin{control, STATE_ID};
 
 	return Head::utility(static_cast<const Control&>(control));
 }
